@@ -312,6 +312,8 @@ def _havoc(I, ctl, node, env, spec, k):
                     qn = f"{klass.__module__}.{klass.__qualname__}.{m}"
                     break
             con = REGISTRY.contracts.get(qn) if qn else None
+            if con is not None and con.self_spec is None:
+                continue  # a static / pure helper: writes no field of self
             if qn is None:
                 # not a method of the class: resolved by __getattr__ (an NCP command, dispatched through
                 # _command) -- its frame is _command's
@@ -332,6 +334,16 @@ def _havoc(I, ctl, node, env, spec, k):
         env.assign(n, havoc_like(I, cur, f"{n}@loop{k}"))
     if self_obj is not None and ctl.con.self_spec is not None:
         for f in sorted(fields):
+            if f.endswith(".*"):
+                # contents of a container of futures may change state; keys / identities do not
+                from .asyncrule import evolve_future
+
+                cur = self_obj.fields.get(f[:-2])
+                vals = [s_.value for s_ in getattr(cur, "slots", [])] + [v for _p, v in getattr(cur, "members", [])]
+                for v in vals:
+                    if isinstance(v, SFuture):
+                        evolve_future(I, v)
+                continue
             ty = ctl.con.self_spec.fields.get(f)
             if ty is None:
                 raise Unsupported(f"loop assigns unknown field self.{f}")
@@ -351,12 +363,25 @@ def invariant_while(I, ctl, node, env, k, spec):
 
         variant0 = _eval_value(I, spec.variant, b)
     if I.truth(I.eval(node.test, env)):
+        mark = len(I.ctx.fx)
+        head_view = snapshot([v for v in ctl.bindings.values()]) if spec.each else None
+        broke = False
         try:
             I.exec_block(node.body, env)
         except BreakSig:
-            return None
+            broke = True
         except ContinueSig:
             pass
+        if spec.each:
+            b = _inv_bindings(I, ctl, env, {"fx": list(I.ctx.fx[mark:]), "broke": broke})
+            for cid, lam in spec.each:
+                names_ = lam.__code__.co_varnames[: lam.__code__.co_argcount]
+                if any(n_ not in b and n_ != "old" for n_ in names_):
+                    continue  # speaks about a local this path never assigned (the iteration ended before)
+                f = eval_clause(I, lam, _select(lam, b), old_view=head_view)
+                I.ctx.check_obligation(f"{ctl.con.qualname}::loop{k}.each.{cid}", f)
+        if broke:
+            return None
         _check_invs(I, ctl, spec, k, env, {}, "preserved")
         if spec.variant is not None:
             from .modular import _eval_value
@@ -406,6 +431,9 @@ def invariant_for(I, ctl, node, env, it, k, spec):
             _check_invs(I, ctl, spec, k, env, ghosts2, "preserved")
             raise PathEnd()
         c.assume(pre == seq)
+        # after the loop the ghost prefix is the whole sequence and there is no current element
+        c.ghost["_pre"] = SBytes(seq)
+        c.ghost["_x"] = None
         I.exec_block(node.orelse, env)
         return None
     if isinstance(it, SymRange):
